@@ -306,7 +306,15 @@ pub fn run_case(mode: Mode, input: &[u8], driver: Driver, script: Script) -> (Re
                             ));
                         }
                         // progress on error is unspecified: what was delivered must be the stripped form of some prefix
-                        let ok = (0..=input.len()).any(|p| check_delivered(mode, input, p, &sh, "").is_ok());
+                        // (one pass over the input, not one check per prefix: inputs can be large)
+                        let ok = {
+                            let s = sh.borrow();
+                            if mode == Mode::Strip {
+                                StripModel::default().output_of_some_prefix(input, &s.accepted)
+                            } else {
+                                input.starts_with(&s.accepted)
+                            }
+                        };
                         if !ok {
                             return Err(format!(
                                 "after Err({:?}) the inner writer holds {} which is not the stripped form of any prefix of the input",
